@@ -135,6 +135,28 @@ func coqGvalR(v reflect.Value, tag string) string {
 
 // repKinds used by randRep for map nodes / list nodes.
 func randRep(r *Rng, t interface{}, depth int) interface{} {
+	rep := randRep0(r, t, depth)
+	if rep == nil {
+		return rep
+	}
+	switch t.(type) {
+	case map[string]interface{}, []interface{}:
+		switch r.Intn(8) {
+		case 0: // a pointer to an interface variable holding the value
+			var raw interface{} = rep
+			return &raw
+		case 1: // a pointer to a pointer to the value
+			p := reflect.New(reflect.TypeOf(rep))
+			p.Elem().Set(reflect.ValueOf(rep))
+			pp := reflect.New(p.Type())
+			pp.Elem().Set(p)
+			return pp.Interface()
+		}
+	}
+	return rep
+}
+
+func randRep0(r *Rng, t interface{}, depth int) interface{} {
 	switch x := t.(type) {
 	case map[string]interface{}:
 		keys := make([]string, 0, len(x))
